@@ -23,6 +23,7 @@ EXPLANATION = (
     "new one is a violation until read. (idle) the association reactor polls the network idle timer and "
     "ends the association when it expires; the timer is restarted only by transport activity. Not "
     "decided: elapsed time, 'plus a small margin', user handlers that block."
+    ' Second session: borrowed rules - artim-every-pass (C05 reactor-order and artim-progress) and reactor-resumed (C24 checkpoint); connect() analysed with the path-sensitive ConnectModel, one recv-bounded instance per timeout class that can be on the socket when it is marked open.'
 )
 
 # Event.wait() sites without a timeout: function -> (event, how its set() is guaranteed)
